@@ -301,6 +301,27 @@ def main(ctx, prop):
                                         finding=st_['finding'], key='corestep'))
         if prop == 'C10':
             extra['resumed_prefix_states'] = sum(len(c.get('resume', [])) for c in allcases)
+        if prop == 'C07':
+            # PAN-OS: nothing outside the targeted vsys; NSX: no object without the Netspoc prefix (simulated manager with foreign objects)
+            from vlib import scope_ext
+            f1, s1 = scope_ext.panos_scope(ctx, 60 if q == 0 else 1500)
+            f2, s2 = scope_ext.nsx_scope(ctx, 24 if q == 0 else 400)
+            for f in f1 + f2:
+                failing.append(dict(what=f['what'], replay=dict(f['replay'], property=prop), finding=None, key=f['what'][:40]))
+            extra.update(s1)
+            extra.update(s2)
+        if prop == 'C08':
+            # PAN-OS and NSX: every emitted command / request is accepted by the strict models of C03 / C04
+            from vlib import c03, c04
+            for mod, label in ((c03, 'PAN-OS'), (c04, 'NSX')):
+                fl, bl, cv = mod.evaluate(ctx, 60 if q == 0 else 1500)
+                for f in fl:
+                    if f.get('key', '').startswith('refused'):
+                        failing.append(dict(what='%s: %s' % (label, f['what']), replay=dict(f['replay'], property=prop),
+                                            finding={'F-C03-2': 'F-C08-1'}.get(f.get('finding')),
+                                            key='%s-%s' % (label, f['key'])))
+                breaks += bl
+                extra['%s_scripts' % label.replace('-', '').lower()] = cv.get('traces_validated_against_impl')
         if prop in ('C01', 'C08', 'C10'):
             # ASA crypto maps, crypto ACLs, transform-sets, ipsec-proposals on Cisco/Vpn.v
             from vlib import asavpn
